@@ -368,6 +368,41 @@ def fold(c):
     return c
 
 
+def known(lits):
+    """closure of a set of path literals under unit propagation: {(canonical literal, polarity)}.
+    not (a and b) together with a gives not b; (a or b) together with not a gives b."""
+    out = set()
+    pending = []
+    for s, p in lits:
+        for l, q in flatten_conj(strip(s), p):
+            c = canon_lit(l, q)
+            out.add(c)
+            if c[0][0] == 'bool':
+                pending.append(c)
+    changed = True
+    while changed:
+        changed = False
+        for c, pol in pending:
+            # c = and(…) known false, or or(…) known true
+            if (c[1] == 'and' and pol) or (c[1] == 'or' and not pol):
+                continue
+            want = c[1] == 'and'            # the value the other operands must have for the last one to be decided
+            rest = []
+            for a in c[2]:
+                ca = canon_lit(a, True)
+                if (ca[0], ca[1] if want else not ca[1]) in out:
+                    continue                 # operand known true (and) / false (or)
+                rest.append(ca)
+            if len(rest) == 1:
+                new = (rest[0][0], (not rest[0][1]) if want else rest[0][1])
+                if new not in out:
+                    out.add(new)
+                    if new[0][0] == 'bool':
+                        pending.append(new)
+                    changed = True
+    return out
+
+
 def lit_set(lits):
     return {canon_lit(s, p) for s, p in lits}
 
@@ -1297,7 +1332,18 @@ class Exec:
             f = v[0]
             args = tuple(v[1:1 + len(n.args)])
             kws = tuple((k.arg if k.arg is not None else '**', val) for k, val in zip(n.keywords, v[1 + len(n.args):]))
+            if f == ('name', 'dict') and not args and all(k != '**' for k, _ in kws):
+                out.append((x, ('dict', new_uid(), tuple((('const', k), val) for k, val in kws))))
+                continue
             target = self.callee(f, x)
+            if target is not None and len(args) >= 1 and args[-1][0] == 'star' and not any(a[0] == 'star' for a in args[:-1]) \
+                    and not any(k == '**' for k, _ in kws):
+                # f(a, *rest): the starred value supplies exactly the remaining positional parameters
+                node = target[0]
+                npos = len(node.args.posonlyargs + node.args.args) - (1 if target[3] is not None else 0)
+                if not node.args.vararg and not node.args.defaults and npos >= len(args) - 1:
+                    rest = args[-1][1]
+                    args = tuple(args[:-1]) + tuple(self.mk_item(rest, i) for i in range(npos - (len(args) - 1)))
             if target is not None and not any(a[0] == 'star' for a in args) and not any(k == '**' for k, _ in kws):
                 res = self.inline(target, f, args, kws, x, n)
                 if res is not None:
